@@ -136,17 +136,28 @@ def splitFirstEq : Text → Option (Text × Text)
       | some (a, b) => some (c :: a, b)
       | none => none
 
-/-- which JSON payloads `json.loads` + `from_dict` accept, and what they denote:
-the complete payloads that were ever rendered (abstract keys).  A payload that is
-not in the table makes `json.loads` raise (ValueError). -/
+/-- which JSON payloads `json.loads` + `from_dict` accept, and what they denote (abstract keys):
+`bench js = some key`, `run js = some (run key, benchmark_id)`.  A payload the decoder does not
+know makes `json.loads` raise (ValueError).  The driver builds the decoders from the complete
+payloads that were ever rendered (`Payloads.ofLists`). -/
 structure Payloads where
-  bench : List (Text × Nat)          -- payload ↦ benchmark key
-  run : List (Text × Nat × Nat)      -- payload ↦ (run key, benchmark_id)
+  bench : Text → Option Nat
+  run : Text → Option (Nat × Nat)
+  /-- `none`: a benchmark data file.  `some ok`: a profile data file (`_ProfileFilePersistence`);
+  `ok js` says whether `json.loads` accepts the last column `js` (the loader of the pinned tree
+  does not look: `some (fun _ => true)`) -/
+  profile : Option (Text → Bool) := none
 
 def lookup {β} (t : List (Text × β)) (p : Text) : Option β :=
   match t with
   | [] => none
   | (k, v) :: rest => if k = p then some v else lookup rest p
+
+def Payloads.ofLists (b : List (Text × Nat)) (r : List (Text × Nat × Nat)) : Payloads :=
+  { bench := lookup b, run := lookup r }
+
+/-- no payload is accepted -/
+def Payloads.none : Payloads := { bench := fun _ => Option.none, run := fun _ => Option.none }
 
 def benchPrefix : Text := "# benchmark: ".toList
 def runPrefix : Text := "# run_id: ".toList
@@ -158,7 +169,7 @@ def classifyComment (pl : Payloads) (l : Text) : Rec :=
     match splitFirstEq (l.drop benchPrefix.length) with
     | none => .metaErr .value
     | some (id, js) =>
-      match lookup pl.bench js with
+      match pl.bench js with
       | none => .metaErr .value
       | some key => match pyNat? id with
         | none => .metaErr .value
@@ -167,7 +178,7 @@ def classifyComment (pl : Payloads) (l : Text) : Rec :=
     match splitFirstEq (l.drop runPrefix.length) with
     | none => .metaErr .value
     | some (id, js) =>
-      match lookup pl.run js with
+      match pl.run js with
       | none => .metaErr .value
       | some (key, bid) => match pyNat? id with
         | none => .metaErr .value
@@ -175,12 +186,40 @@ def classifyComment (pl : Payloads) (l : Text) : Rec :=
   else if sessionPrefix.isPrefixOf l then .session
   else .comment
 
+/-- a profile data line: `ProfileData.from_str_list` (profile_data.py:33-44) — the JSON column
+is checked first (repaired loader), then invocation, number of iterations and the run id column
+(second to last).  Every line is a complete data point: it is modelled as a data point whose only
+measurement is its total, with the JSON text as value. -/
+def classifyProfile (ok : Text → Bool) (f : List Text) : Rec :=
+  if !ok (f.getLast?.getD []) then .dataErr .value else
+  match pyNat? (f.headD []) with
+  | none => .dataErr .value
+  | some inv =>
+  match f[1]? with
+  | none => .dataErr .index
+  | some f1 =>
+  match pyNat? f1 with
+  | none => .dataErr .value
+  | some nit =>
+  match ((f.drop 2).dropLast).getLast? with
+  | none => .dataErr .index
+  | some idx =>
+  match pyNat? idx with
+  | none => .dataErr .value
+  | some i => .meas ⟨inv, nit, f.getLast?.getD [], totalName, true, i⟩
+
+/-- a data line of a benchmark or of a profile data file -/
+def classifyLine (pl : Payloads) (f : List Text) : Rec :=
+  match pl.profile with
+  | none => classifyData f
+  | some ok => classifyProfile ok f
+
 /-- one line → one record (persistence.py:282, 311, 315) -/
 def classify (pl : Payloads) (hdr : Text) (l : Line) : Rec :=
   match l.content with
   | '#' :: _ => classifyComment pl l.content
   | _ => if l.content = hdr && l.terminated then .header
-         else classifyData (splitOn '\t' l.content)
+         else classifyLine pl (splitOn '\t' l.content)
 
 /-! ## Level 2: records -/
 
@@ -356,6 +395,129 @@ def sessionRecs (glued empty : Bool) (tb : Tables) (ds : List WDP) : List Rec :=
   match ds with
   | [] => []
   | _ => blockRecs glued empty ++ emitAll tb ds
+
+/-- the writer's tables after a list of data points -/
+def ensureAll (tb : Tables) (ds : List WDP) : Tables := ds.foldl Tables.ensure tb
+
+/-! ## What a session appends, as text -/
+
+/-- lines written with their newline -/
+def renderLines (ls : List Text) : Text := ls.flatMap (fun l => l ++ ['\n'])
+
+/-- the first line of a session block: `#!` and the command line (persistence.py:365) -/
+def sessLine (cmd : Text) : Text := '#' :: '!' :: cmd
+
+/-- a rendered line together with the record the writer means by it -/
+structure RLine where
+  text : Text
+  cls : Rec
+  deriving Repr, DecidableEq
+
+/-- a session that appends: its command line, whether it found the file empty, the lines it writes
+after the `#!` line as a function of the writer's tables (`_benchmarks_in_file`/`_run_ids_in_file`,
+which are the loader's), and the data points these lines stand for -/
+structure Sess where
+  cmd : Text
+  empty : Bool
+  body : Tables → List RLine
+  ds : List WDP
+
+def sessText (tb : Tables) (s : Sess) : Text :=
+  renderLines (sessLine s.cmd :: (s.body tb).map RLine.text)
+
+/-- sessions appended one after the other; each starts from the tables the previous one left -/
+def sessionsText (tb : Tables) : List Sess → Text
+  | [] => []
+  | s :: ss => sessText tb s ++ sessionsText (ensureAll tb s.ds) ss
+
+/-! ### a concrete renderer (persistence.py:359-414, measurement.py:38-48, run_id.py:420-430) -/
+
+/-- Python `str(n)` for a natural number -/
+def natText (n : Nat) : Text := Nat.toDigits 10 n
+
+/-- what the renderer needs to know beyond the data points: the run's columns (benchmark …
+machine), the unit, the JSON payloads of the metadata records, the three comment lines of a
+session block, the column header -/
+structure Rend where
+  cols : Nat → List Text
+  unit : Text → Text             -- unit of a criterion
+  benchJson : Nat → Text
+  runJson : Nat → Nat → Text     -- run key, benchmark id
+  comment : Nat → Text
+  hdr : Text
+  /-- a profile data file: lines are `invocation, numIterations, run columns, run id, JSON`
+  (profile_data.py:27-30) -/
+  profile : Bool := false
+
+def measLineText (R : Rend) (run : Nat) (m : Meas) : Text :=
+  if R.profile then
+    joinWith '\t' ([natText m.inv, natText m.it] ++ R.cols run ++ [natText m.runIdx, m.value])
+  else
+    joinWith '\t' ([natText m.inv, natText m.it, m.value, R.unit m.crit, m.crit] ++ R.cols run ++ [natText m.runIdx])
+
+def recText (R : Rend) (run : Nat) : Rec → Text
+  | .bench id key => benchPrefix ++ natText id ++ '=' :: R.benchJson key
+  | .run id bid key => runPrefix ++ natText id ++ '=' :: R.runJson key bid
+  | .meas m => measLineText R run m
+  | .header => R.hdr
+  | _ => R.comment 0
+
+/-- the lines of one `persist_data_point` -/
+def renderDP (R : Rend) (tb : Tables) (d : WDP) : List RLine :=
+  (emitDP tb d).map (fun r => ⟨recText R d.run r, r⟩)
+
+def renderAll (R : Rend) (tb : Tables) : List WDP → List RLine
+  | [] => []
+  | d :: ds => renderDP R tb d ++ renderAll R (tb.ensure d) ds
+
+/-- the lines of a session after its `#!` line -/
+def renderBody (R : Rend) (empty : Bool) (tb : Tables) (ds : List WDP) : List RLine :=
+  [⟨R.comment 0, .comment⟩, ⟨R.comment 1, .comment⟩, ⟨R.comment 2, .comment⟩]
+    ++ (if empty then [⟨R.hdr, .header⟩] else []) ++ renderAll R tb ds
+
+def mkSess (R : Rend) (cmd : Text) (empty : Bool) (ds : List WDP) : Sess :=
+  ⟨cmd, empty, fun tb => renderBody R empty tb ds, ds⟩
+
+def plainField (t : Text) : Bool := !t.contains '\t' && !t.contains '\n' && !t.contains '\r'
+
+def plainLine (t : Text) : Bool := !t.contains '\n' && !t.contains '\r'
+
+/-- a comment line of a session block: starts with `#`, is none of the three special kinds -/
+def commentOk (t : Text) : Bool :=
+  plainLine t && t.head? == some '#' && !benchPrefix.isPrefixOf t && !runPrefix.isPrefixOf t
+    && !sessionPrefix.isPrefixOf t
+
+/-- decidable conditions on the data points: values are `%f` numerals, criteria are plain fields
+and only the last measurement is called `total`; the run's columns are plain fields (profile
+data file: no criteria, the JSON column is a plain field) -/
+def dpOk (R : Rend) (d : WDP) : Bool :=
+  if R.profile then d.crits.isEmpty && plainField d.total && (R.cols d.run).all plainField else
+  d.crits.all (fun cv => plainField cv.1 && plainField cv.2 && pyFloatOk cv.2 && cv.1 != totalName
+      && plainField (R.unit cv.1))
+    && plainField (R.unit totalName) && plainField d.total && pyFloatOk d.total && (R.cols d.run).all plainField
+
+def rendOk (R : Rend) : Bool :=
+  commentOk (R.comment 0) && commentOk (R.comment 1) && commentOk (R.comment 2)
+    && plainLine R.hdr && !(R.hdr.head?.any (fun c => isDigit c || c == '#')) && !R.hdr.contains '#'
+
+/-- decidable side conditions of the text level (see the trusted base): no carriage return in
+the text (Python's universal newlines would split there) -/
+def noCR (t : Text) : Bool := !t.contains '\r'
+
+/-- a command line as `subprocess.list2cmdline(sys.argv)` gives it for the generated sessions:
+one line, no tab, not ending in `}`, `]` or `"` (what a JSON payload ends in) -/
+def cmdOk (cmd : Text) : Bool :=
+  !cmd.contains '\t' && !cmd.contains '\n' && cmd.getLast? != some '}' && cmd.getLast? != some ']'
+    && cmd.getLast? != some '"'
+
+/-- every JSON payload the decoders accept is an object: it ends in `}` -/
+def PlOk (pl : Payloads) : Prop :=
+  (∀ js k, pl.bench js = some k → js.getLast? = some '}') ∧ (∀ js kb, pl.run js = some kb → js.getLast? = some '}')
+    ∧ (∀ ok js, pl.profile = some ok → ok js = true → js.getLast? = some ']' ∨ js.getLast? = some '"')
+
+/-- number of `total` measurement records: each completes one data point -/
+def countTotals (rs : List Rec) : Nat :=
+  (rs.filter (fun r => match r with | .meas m => m.total | _ => false)).length
 
 /-! ## The executor's resume logic -/
 
